@@ -311,32 +311,10 @@ def corrupt(comp, runs, profile):
     return None, None
 
 
-def check(prop, tier, seed, replay=None):
-    t0 = time.time()
-    P = PROPS[prop]
-    comp = P['comp']
+def run_part(prop, P, part, tier, seed, workdir, known):
+    comp = part['comp']
     C = COMPONENTS[comp]
-    profile = P['profile']
-    workdir = os.path.join(WORK, '%s_%s' % (prop, tier))
-    shutil.rmtree(workdir, ignore_errors=True)
-    os.makedirs(workdir, exist_ok=True)
-    os.makedirs(os.path.join(ROOT, 'evidence'), exist_ok=True)
-    os.makedirs(os.path.join(ROOT, 'replays'), exist_ok=True)
-    bt = build_harness()
-    log('[%s] harness built in %.1fs' % (prop, bt))
-
-    if replay:
-        outp = os.path.join(workdir, 'replay_out.ndjson')
-        harness([C['harness'], 'replay', '--in', replay, '--out', outp])
-        v = validate(comp, profile, outp, workdir, par=1, tag='rp')
-        if v['rejected']:
-            run, idx, ev = v['rejected'][0]
-            log('replay: rejected at event %d of the run: %s' % (idx, json.dumps(ev)[:400]))
-            log('VIOLATION property=%s replay=%s' % (prop, replay))
-            return 1
-        log('replay: accepted under profile %s (%d events)' % (profile, v['events']))
-        return 0
-
+    profile = part.get('profile', 'none')
     mc = run_mc(comp, tier)
     for r in mc:
         log('[%s] MC %s: %d distinct states, %d transitions, depth %s%s' % (prop, r['cfg'], r['states'], r['transitions'], r['depth'], ' (cached)' if r.get('cached') else ''))
@@ -344,7 +322,7 @@ def check(prop, tier, seed, replay=None):
             log('[%s] note: actions never taken in %s: %s' % (prop, r['cfg'], r['never_taken']))
 
     traces = []
-    gen_path, gen_n = run_gen(comp, tier, seed, P.get('gen'))
+    gen_path, gen_n = run_gen(comp, tier, seed, part.get('gen'))
     skipped = 0
     if gen_path:
         outp = os.path.join(workdir, 'tr_gen.ndjson')
@@ -352,13 +330,12 @@ def check(prop, tier, seed, replay=None):
         skipped = st.get('skipped', 0)
         traces.append(('gen', outp))
         log('[%s] replayed %d TLC-generated behaviours in the implementation (%d events, %d steps skipped)' % (prop, gen_n, st.get('events', 0), skipped))
-    for k, rnd in enumerate((P.get('random') or C['random'])[tier]):
+    for k, rnd in enumerate((part.get('random') or C['random'])[tier]):
         outp = os.path.join(workdir, 'tr_rnd%d.ndjson' % k)
         st = harness([C['harness'], 'random', '--seed', str(seed + 1000 * k), '--runs', str(rnd['runs']), '--size', rnd.get('size', tier), '--out', outp] + rnd.get('args', []))
         traces.append(('rnd%d' % k, outp))
         log('[%s] random environment: %d runs, %d events' % (prop, st.get('runs', 0), st.get('events', 0)))
 
-    known = load_known()
     tot = {'runs': 0, 'accepted': 0, 'events': 0, 'tlc_states': 0}
     violations, known_hits = [], []
     samples = []
@@ -389,7 +366,7 @@ def check(prop, tier, seed, replay=None):
     if first_ok_runs:
         r2, at = corrupt(comp, first_ok_runs[:200], profile)
         if r2 is not None:
-            n_ok, rej, _ = validate_file(comp, profile if P.get('selftest_profile') is None else P['selftest_profile'], [r2], workdir, 'selftest')
+            n_ok, rej, _ = validate_file(comp, profile if part.get('selftest_profile') is None else part['selftest_profile'], [r2], workdir, 'selftest')
             selftest['corrupted_rejected'] = bool(rej)
             selftest['corrupted_at'] = at
             if not rej:
@@ -399,12 +376,56 @@ def check(prop, tier, seed, replay=None):
 
     # drift: the full profile on the generated traces (informational)
     drift = None
-    if not violations and P.get('drift_profile') and tier == 'thorough':
-        dv = validate(comp, P['drift_profile'], traces[0][1], workdir, par=8, tag='drift')
-        drift = {'profile': P['drift_profile'], 'runs': dv['runs'], 'accepted': dv['accepted']}
+    if not violations and part.get('drift_profile') and tier == 'thorough':
+        dv = validate(comp, part['drift_profile'], traces[0][1], workdir, par=8, tag='drift')
+        drift = {'profile': part['drift_profile'], 'runs': dv['runs'], 'accepted': dv['accepted']}
         if dv['rejected']:
             log('DRIFT component=%s %d runs differ from the full model (first: %s)' % (comp, len(dv['rejected']), json.dumps(dv['rejected'][0][2])[:300]))
 
+    return {'comp': comp, 'profile': profile, 'mc': mc, 'gen_n': gen_n, 'skipped': skipped, 'tot': tot, 'violations': violations,
+            'known_hits': known_hits, 'samples': samples, 'selftest': selftest, 'drift': drift}
+
+
+def check(prop, tier, seed, replay=None):
+    t0 = time.time()
+    P = PROPS[prop]
+    part0 = (P.get('parts') or [P])[0]
+    comp = part0['comp']
+    C = COMPONENTS[comp]
+    profile = part0.get('profile', 'none')
+    workdir = os.path.join(WORK, '%s_%s' % (prop, tier))
+    shutil.rmtree(workdir, ignore_errors=True)
+    os.makedirs(workdir, exist_ok=True)
+    os.makedirs(os.path.join(ROOT, 'evidence'), exist_ok=True)
+    os.makedirs(os.path.join(ROOT, 'replays'), exist_ok=True)
+    bt = build_harness()
+    log('[%s] harness built in %.1fs' % (prop, bt))
+
+    if replay:
+        outp = os.path.join(workdir, 'replay_out.ndjson')
+        harness([C['harness'], 'replay', '--in', replay, '--out', outp])
+        v = validate(comp, profile, outp, workdir, par=1, tag='rp')
+        if v['rejected']:
+            run, idx, ev = v['rejected'][0]
+            log('replay: rejected at event %d of the run: %s' % (idx, json.dumps(ev)[:400]))
+            log('VIOLATION property=%s replay=%s' % (prop, replay))
+            return 1
+        log('replay: accepted under profile %s (%d events)' % (profile, v['events']))
+        return 0
+
+    known = load_known()
+    parts = P.get('parts') or [P]
+    results = [run_part(prop, P, part, tier, seed, workdir, known) for part in parts]
+    mc = [m for r in results for m in r['mc']]
+    gen_n = sum(r['gen_n'] for r in results)
+    skipped = sum(r['skipped'] for r in results)
+    tot = {k: sum(r['tot'][k] for r in results) for k in ('runs', 'accepted', 'events', 'tlc_states')}
+    violations = [v for r in results for v in r['violations']]
+    known_hits = [v for r in results for v in r['known_hits']]
+    samples = [x for r in results for x in r['samples']][:4]
+    selftest = {r['comp']: r['selftest'] for r in results}
+    drift = {r['comp']: r['drift'] for r in results}
+    profile = '+'.join(r['profile'] for r in results)
     seen = set()
     for kf in known_hits:
         if kf['id'] not in seen:
